@@ -9,6 +9,7 @@ package main
 // A sweep of programs outside the fragment goes through node only.
 
 import (
+	"regexp"
 	"bytes"
 	"fmt"
 	"runtime"
@@ -531,11 +532,237 @@ func (g *c01Gen) leaf() *c01E {
 	}
 }
 
+// nullishShape: a conditional over a nullish test of a plain variable (the shapes of toNullishExpr and their near
+// misses): test a==null / a!=null / a===null||a===undefined / … (also incomplete or over two variables), absent
+// branch undefined / void 0 / null / 0 / a variable / a call, present branch the variable itself, a member/call/index
+// chain rooted at it (possibly parenthesised), a chain rooted elsewhere, or anything
+func (g *c01Gen) nullishShape(budget int) *c01E {
+	r := g.r
+	v := r.Pick(c01Vars)
+	nul := func() *c01E {
+		switch r.Intn(4) {
+		case 0:
+			return &c01E{K: 'Z'}
+		case 1:
+			return c01V("undefined")
+		case 2:
+			return c01U("void", c01N(0))
+		}
+		return &c01E{K: 'Z'}
+	}
+	cmp := func(op string, w string) *c01E {
+		a, b := c01V(w), nul()
+		if r.Chance(20) {
+			a, b = b, a
+		}
+		return c01B(op, a, b)
+	}
+	var test *c01E
+	neg := r.Bool()
+	switch x := r.Intn(100); {
+	case x < 40:
+		test = cmp(map[bool]string{false: "==", true: "!="}[neg], v)
+	case x < 50:
+		test = cmp(map[bool]string{false: "===", true: "!=="}[neg], v)
+	default:
+		w := v
+		if r.Chance(10) {
+			w = r.Pick(c01Vars)
+		}
+		strict := func() string {
+			if r.Chance(75) {
+				return map[bool]string{false: "===", true: "!=="}[neg]
+			}
+			return map[bool]string{false: "==", true: "!="}[neg]
+		}
+		l, rr := c01B(strict(), c01V(v), &c01E{K: 'Z'}), c01B(strict(), c01V(w), c01V("undefined"))
+		if r.Chance(15) {
+			rr = c01B(strict(), c01V(w), &c01E{K: 'Z'}) // both sides test null
+		}
+		if r.Bool() {
+			l, rr = rr, l
+		}
+		op := map[bool]string{false: "||", true: "&&"}[neg]
+		if r.Chance(8) {
+			op = map[bool]string{false: "&&", true: "||"}[neg]
+		}
+		test = c01B(op, l, rr)
+	}
+	if r.Chance(15) {
+		test = c01G(test)
+	}
+	var absent *c01E
+	switch x := r.Intn(100); {
+	case x < 30:
+		absent = c01V("undefined")
+	case x < 45:
+		absent = c01U("void", c01N(0))
+	case x < 60:
+		absent = &c01E{K: 'Z'}
+	case x < 68:
+		absent = c01N(0)
+	case x < 72:
+		absent = c01U("void", c01L(c01V(r.Pick(c01Funs)), c01N(1)))
+	default:
+		absent = g.expr(r.Intn(2))
+	}
+	chain := func(root *c01E) *c01E {
+		e := root
+		for n := 1 + r.Intn(3); n > 0; n-- {
+			switch r.Intn(3) {
+			case 0:
+				e = c01D(e, r.Pick([]string{"m", "b", "k"}))
+			case 1:
+				e = c01I(e, c01Wrap(g.expr(r.Intn(2)), int(pjs.OpExpr)))
+			default:
+				e = c01L(e, c01Wrap(g.expr(r.Intn(2)), int(pjs.OpAssign)))
+			}
+		}
+		return e
+	}
+	var present *c01E
+	switch x := r.Intn(100); {
+	case x < 25:
+		present = c01V(v)
+	case x < 65:
+		present = chain(c01V(v))
+	case x < 72:
+		present = chain(c01G(c01V(v)))
+	case x < 80:
+		present = chain(c01V(r.Pick(c01Vars)))
+	case x < 86:
+		present = c01D(c01G(chain(c01V(v))), "m")
+	default:
+		present = g.expr(budget - 1)
+	}
+	absent, present = c01Wrap(absent, int(pjs.OpAssign)), c01Wrap(present, int(pjs.OpAssign))
+	e := c01C(c01Wrap(test, int(pjs.OpCoalesce)), absent, present)
+	if neg {
+		e = c01C(c01Wrap(test, int(pjs.OpCoalesce)), present, absent)
+	}
+	if r.Chance(6) {
+		// the conditional in parentheses as the object of a member access / call (open known finding K-C01-10 when it
+		// becomes an optional chain)
+		switch r.Intn(3) {
+		case 0:
+			return c01D(c01G(e), "m")
+		case 1:
+			return c01I(c01G(e), c01V(r.Pick(c01Vars)))
+		}
+		return c01L(c01G(e), c01N(1))
+	}
+	return e
+}
+
+// ltNotShape: `<` or `<<` whose right operand is printed with a leading `!<literal>` (directly, in parentheses, or as
+// the chosen branch of a conditional with a constant test): the printer's `<!--` avoidance (isLtNot) keeps the literal
+func (g *c01Gen) ltNotShape(budget int) *c01E {
+	r := g.r
+	lit := func() *c01E {
+		if r.Chance(70) {
+			return c01N([]int{0, 1, 5, 12000, 1000}[r.Intn(5)])
+		}
+		return c01Str([]string{"", "s"}[r.Intn(2)])
+	}
+	nl := c01U("!", lit())
+	var rhs *c01E
+	switch r.Intn(6) {
+	case 0:
+		rhs = nl
+	case 1:
+		rhs = c01G(nl)
+	case 2:
+		rhs = c01G(c01C(c01N([]int{1, 1000, 5}[r.Intn(3)]), nl, g.leaf()))
+	case 3:
+		rhs = c01G(c01C(c01N(0), g.leaf(), nl))
+	case 4:
+		rhs = c01G(c01C(c01V(r.Pick(c01Vars)), nl, g.leaf()))
+	default:
+		rhs = c01U("!", nl)
+	}
+	if r.Chance(30) {
+		rhs = c01B([]string{"+", "*", "-"}[r.Intn(3)], rhs, g.leaf())
+	}
+	op := "<"
+	if r.Chance(40) {
+		op = "<<"
+	}
+	if e, ok := c01Mk(op, []*c01E{g.expr(budget - 2), rhs}, 0); ok {
+		return e
+	}
+	return g.leaf()
+}
+
+// deMorganShape: `!` over a chain of two to four operands of `&&` / `||` (left- or right-nested) whose operands are
+// variables, calls, negations, equality tests, and expressions between `||` and unary precedence (a+1, p<q, p|q):
+// the De Morgan rewrite of optimizeUnaryExpr with its size score and its grouping decisions
+func (g *c01Gen) deMorganShape() *c01E {
+	r := g.r
+	operand := func() *c01E {
+		v := func() *c01E { return c01V(r.Pick(c01Vars)) }
+		switch r.Intn(9) {
+		case 0, 1:
+			return v()
+		case 2:
+			return c01B(r.Pick([]string{"==", "!=", "===", "!=="}), v(), g.leaf())
+		case 3:
+			return c01B(r.Pick([]string{"+", "-", "*", "<", ">=", "|", "&", "^", "<<"}), v(), g.leaf())
+		case 4:
+			return c01U("!", v())
+		case 5:
+			return c01L(c01V(r.Pick(c01Funs)), c01N(r.Intn(3)))
+		case 6:
+			return c01B("??", v(), v())
+		case 7:
+			return c01B("=", v(), g.leaf())
+		}
+		return g.leaf()
+	}
+	op := r.Pick([]string{"&&", "||"})
+	n := 2 + r.Intn(3)
+	e := operand()
+	for i := 1; i < n; i++ {
+		o := op
+		if r.Chance(12) {
+			o = map[string]string{"&&": "||", "||": "&&"}[op]
+		}
+		var ok bool
+		var ne *c01E
+		if r.Chance(80) {
+			ne, ok = c01Mk(o, []*c01E{e, operand()}, 0)
+		} else {
+			ne, ok = c01Mk(o, []*c01E{operand(), e}, 0)
+		}
+		if ok {
+			e = ne
+		}
+	}
+	out, ok := c01Mk("!", []*c01E{e}, 0)
+	if !ok {
+		return g.leaf()
+	}
+	if r.Chance(30) {
+		if w, ok := c01Mk(r.Pick([]string{"&&", "||", "+", "=="}), []*c01E{out, g.leaf()}, 0); ok {
+			return w
+		}
+	}
+	return out
+}
+
 // expr generates an expression with about `budget` operator nodes.
 func (g *c01Gen) expr(budget int) *c01E {
 	r := g.r
 	if budget <= 0 {
 		return g.leaf()
+	}
+	if r.Chance(5) {
+		return g.nullishShape(budget)
+	}
+	if r.Intn(250) == 0 {
+		return g.ltNotShape(budget)
+	}
+	if r.Intn(40) == 0 {
+		return g.deMorganShape()
 	}
 	for try := 0; try < 20; try++ {
 		var f string
@@ -714,6 +941,7 @@ type c01Case struct {
 	tag      string
 	rename   bool // KeepVarNames off
 	minified bool
+	seeds    int // host worlds per program under node (0 = 2)
 }
 
 func c01Ver2020(v int) bool { return v == 0 || v >= 2020 }
@@ -770,6 +998,7 @@ func c01RunStage(c *Ctx, name, rule string, cases []*c01Case, exhaustive bool, n
 		return err
 	}
 	unmodelled := 0
+	var diffCases []*c01Case
 	for k, i := range idx {
 		cs := cases[i]
 		key := fmt.Sprintf("%s [v%d]", cs.src, cs.ver)
@@ -778,6 +1007,11 @@ func c01RunStage(c *Ctx, name, rule string, cases []*c01Case, exhaustive bool, n
 		st.Count(key, nontrivial)
 		if cs.tag != "" {
 			st.Tag(cs.tag)
+		}
+		if strings.Contains(cs.out, "?.") {
+			st.Tag("out:?.") // the optional-chaining rewrite fired (the input never contains `?.`)
+		} else if strings.Contains(cs.out, "??") && !strings.Contains(cs.src, "??") {
+			st.Tag("out:??")
 		}
 		if !ok {
 			if msg == "unmodelled" {
@@ -789,7 +1023,14 @@ func c01RunStage(c *Ctx, name, rule string, cases []*c01Case, exhaustive bool, n
 			continue
 		}
 		if string(got) != cs.out {
-			c.R.Add(h.Finding{Stage: name, Kind: "diff", What: "model.c01.min ≠ js.Minify", Input: cs.src, Config: fmt.Sprintf("version=%d enc=%s", cs.ver, cs.prog.Enc()), Impl: cs.out, Model: string(got)})
+			diffCases = append(diffCases, cs)
+			// at most 8 correspondence differences per stage are listed (the report holds 40 findings in all: the node
+			// stages that follow must be able to add the failing inputs)
+			if len(diffCases) <= 8 {
+				c.R.Add(h.Finding{Stage: name, Kind: "diff", What: "model.c01.min ≠ js.Minify", Input: cs.src, Config: fmt.Sprintf("version=%d enc=%s", cs.ver, cs.prog.Enc()), Impl: cs.out, Model: string(got)})
+			} else {
+				st.Tag("diff-not-listed")
+			}
 		}
 	}
 	if unmodelled > 0 {
@@ -807,6 +1048,14 @@ func c01RunStage(c *Ctx, name, rule string, cases []*c01Case, exhaustive bool, n
 		}
 		if nodeShare >= 100 || (i*7919+int(c.Seed))%100 < nodeShare {
 			sample = append(sample, cs)
+		}
+	}
+	// every case on which model and real code disagree is executed (with more host worlds): a behavioural change
+	// behind the disagreement yields a failing input
+	for _, cs := range diffCases {
+		cs.seeds = 8
+		if len(diffCases) > 400 {
+			cs.seeds = 2
 		}
 	}
 	if c.Search {
@@ -841,6 +1090,18 @@ func c01RunStage(c *Ctx, name, rule string, cases []*c01Case, exhaustive bool, n
 		}
 		sample = cut
 	}
+	if len(diffCases) > 3000 {
+		diffCases = diffCases[:3000]
+	}
+	inSample := map[*c01Case]bool{}
+	for _, cs := range sample {
+		inSample[cs] = true
+	}
+	for _, cs := range diffCases {
+		if !inSample[cs] {
+			sample = append(sample, cs)
+		}
+	}
 	return c01NodeStage(c, name+"-node", sample, true)
 }
 
@@ -866,11 +1127,18 @@ func c01DiffClass(why string) string {
 func c01NodeStage(c *Ctx, name string, cases []*c01Case, fragment bool) error {
 	st := c.R.StartStage(name, "input and real output executed by node in fresh vm contexts with recording host functions/objects (2 seeded host worlds per program): same call trace, same final globals, same completion; non-trivial = output text differs from input text")
 	var pairs []c01Pair
+	lo := make([]int, len(cases)+1)
 	for i, cs := range cases {
-		for k := 0; k < 2; k++ {
+		n := 2
+		if cs.seeds > 0 {
+			n = cs.seeds
+		}
+		lo[i] = len(pairs)
+		for k := 0; k < n; k++ {
 			pairs = append(pairs, c01Pair{ID: len(pairs), A: cs.src, B: cs.out, Seed: int(c.Seed)*1000 + i*2 + k})
 		}
 	}
+	lo[len(cases)] = len(pairs)
 	res, err := c01NodeCompare(pairs)
 	if err != nil {
 		return err
@@ -883,8 +1151,8 @@ func c01NodeStage(c *Ctx, name string, cases []*c01Case, fragment bool) error {
 	skipped := 0
 	for i, cs := range cases {
 		st.Count(cs.src+" ["+cs.cfg()+"]", cs.out != cs.src)
-		for k := 0; k < 2; k++ {
-			r := res[i*2+k]
+		for k := lo[i]; k < lo[i+1]; k++ {
+			r := res[k]
 			if r.Skip != "" {
 				skipped++
 				st.Tag("skip:" + strings.SplitN(r.Skip, ":", 2)[0])
@@ -919,11 +1187,22 @@ func c01NodeStage(c *Ctx, name string, cases []*c01Case, fragment bool) error {
 			known = append(known, ok && string(got) == "1")
 		}
 	}
+	listed := 0
 	for i, b := range bads {
 		kn := ""
 		if fragment {
 			if known[i] {
 				kn = "K-C01 (trig.c01.known)"
+			} else {
+				// a program outside the model (e.g. `!<literal>` directly after `<`) cannot be judged by the Lean guard:
+				// the syntactic triggers of the sweep apply (K1 `return a,b,undefined`, K2, K3)
+				var ids []string
+				for _, id := range c01SwClassify(b.cs.src) {
+					if c01OpenTriggers[id] && strings.HasPrefix(id, "K") {
+						ids = append(ids, id)
+					}
+				}
+				kn = strings.Join(ids, ",")
 			}
 		} else {
 			// only triggers of OPEN known findings count
@@ -940,6 +1219,10 @@ func c01NodeStage(c *Ctx, name string, cases []*c01Case, fragment bool) error {
 			st.Tag("known:" + kn)
 			continue
 		}
+		if listed++; listed > 10 {
+			st.Tag("fail-not-listed") // at most 10 failing inputs per stage are listed
+			continue
+		}
 		c.R.Add(h.Finding{Stage: name, Kind: "fail", What: "behaviour of the minified program differs under node: " + c01DiffClass(b.res.Why),
 			Input: b.cs.src, Config: b.cs.cfg(), Impl: b.cs.out, Model: b.res.Why + " | input: " + b.res.OA + " | output: " + b.res.OB})
 	}
@@ -954,8 +1237,17 @@ func (cs *c01Case) cfg() string {
 // c01ClassifyExtra: syntactic triggers of known findings found after the sweep generator was written.
 // "S14-param-default-var": a function whose parameter list has a default value mentioning an identifier that the body of
 // the same function declares with `var` (parse/v2 binds the body's uses of that name to the outer variable).
+var c01ReYieldUndef = regexp.MustCompile(`\byield\s+\(*undefined\b`)
+
+// `undefined` as a parameter (last: `undefined){` / `undefined)=>`; not last: `(undefined,…){`) or as a declared variable
+var c01ReBindUndef = regexp.MustCompile(`\bundefined\s*\)\s*(\{|=>)|[(,]\s*undefined\s*[,=][^{};]*\)\s*(\{|=>)|\b(var|let|const)\s[^;]*\bundefined\s*[=,;]`)
+
 func c01ClassifyExtra(src string) []string {
 	var out []string
+	// S17: `yield undefined` where `undefined` may be a captured local of an enclosing function
+	if c01ReYieldUndef.MatchString(src) && c01ReBindUndef.MatchString(src) {
+		out = append(out, "S17-yield-shadow-undefined")
+	}
 	isID := func(c byte) bool { return c == '_' || c == '$' || c >= '0' && c <= '9' || c >= 'a' && c <= 'z' || c >= 'A' && c <= 'Z' }
 	idents := func(t string) map[string]bool {
 		m := map[string]bool{}
@@ -1042,45 +1334,48 @@ var c01FixedCorpus = []string{
 	"x=\"\\\n\"?1:2", "x=!\"\\\n\"", "if(a in b){}", "x=void(a in b)", "function t(p){if((p||'')instanceof q){}}x=t(a)",
 	"function t(p1){class C{static{let e=f(1);k(e,p1)}}}t(5)", "for(var i of[1]){const[]=[]}", "for(var i of[1]){function t(){}}f(typeof t)", "if(a){f(1)}else{async function t(){}}",
 	"let x=2;if(a){throw 1}else{let x=3;h(x)}h(x)", "if(a)throw 1;else{let l=1}", "function t(){let x=2;if(a){return 1}else{let x=3;h(x)}h(x)}t()",
+	"a=null;x=(a?.b)[c];f(x)", "a=o1;x=(a==null?undefined:a.b)();f(x)", "a=null;x=(a==null?undefined:a.b).c;f(x)", "(a==null?undefined:a.b).c=1", "{class C{static s=f(1)}}", "{let z=class{static s=f(1)}}", "{class C extends f(1){}}",
+	"function t(){var {a}=o1;let z=1;var {n:[]}=o2}t()",
+	"false%(10<(1000?!12000:a))", "x=a<(1?!5:b);f(x)", "x=a<<(0?b:!\"s\")+1;f(x)",
 	"x=a===null||a===undefined", "x=a==null?b:a", "x=a?true:false", "x=!a?b:c", "x=a?a:b", "x=(f(1),a)?a:g(2)",
 }
 
 func c01KnownAndCorpus(c *Ctx) error {
 	st := c.R.StartStage("known+corpus", "replay of every open known finding (must still differ under node, else NOTE) and of the inputs of repaired defects (must agree under node), 8 (quick) / 32 (thorough) host-world seeds each")
-	run := func(src string, ver int, rename bool) (out string, differs bool, why string, err error) {
-		o, merr, crash := c01Minify(src, ver, !rename)
-		if crash != "" || merr != nil {
-			return "", true, "minify failed: " + crash + fmt.Sprint(merr), nil
-		}
-		var pairs []c01Pair
-		for k := 0; k < c.N(8, 32); k++ {
-			pairs = append(pairs, c01Pair{ID: k, A: src, B: o, Seed: k})
-		}
-		res, e := c01NodeCompare(pairs)
-		if e != nil {
-			return o, false, "", e
-		}
-		for _, r := range res {
-			if r.Skip == "" && !r.Same {
-				return o, true, r.Why, nil
-			}
-		}
-		return o, false, "", nil
+	// all programs are minified first, then executed by node in one batch
+	type job struct {
+		src, out, fail string
+		rename        bool
+		known         *h.KnownEntry
+		lo, hi        int // pairs[lo:hi]
 	}
-	for _, k := range h.Known("C01") {
+	var jobs []*job
+	var pairs []c01Pair
+	add := func(src string, rename bool, k *h.KnownEntry) {
+		j := &job{src: src, rename: rename, known: k}
+		o, merr, crash := c01Minify(src, 0, !rename)
+		if crash != "" || merr != nil {
+			j.fail = "minify failed: " + crash + fmt.Sprint(merr)
+		} else {
+			j.out = o
+			j.lo = len(pairs)
+			for k := 0; k < c.N(8, 32); k++ {
+				pairs = append(pairs, c01Pair{ID: len(pairs), A: src, B: o, Seed: k})
+			}
+			j.hi = len(pairs)
+		}
+		jobs = append(jobs, j)
+	}
+	known := h.Known("C01")
+	for i := range known {
+		k := &known[i]
 		if k.Status != "open" {
 			continue
 		}
-		src := k.ReplayStr("src")
 		rename, _ := k.Replay["rename"].(bool)
-		out, differs, why, err := run(src, 0, rename)
-		if err != nil {
-			return err
-		}
-		st.Count("known "+k.ID+": "+src, true)
-		c.R.AddKnown(k.ID, differs, k.What, out+" | "+why)
+		add(k.ReplayStr("src"), rename, k)
 	}
-	for _, k := range h.Known("C01") {
+	for _, k := range known {
 		if k.Status == "fixed" {
 			if src := k.ReplayStr("input"); src != "" {
 				c01FixedCorpus = append(c01FixedCorpus, src)
@@ -1089,19 +1384,36 @@ func c01KnownAndCorpus(c *Ctx) error {
 	}
 	for _, src := range c01FixedCorpus {
 		for _, rename := range []bool{false, true} {
-			out, differs, why, err := run(src, 0, rename)
-			if err != nil {
-				return err
+			add(src, rename, nil)
+		}
+	}
+	res, err := c01NodeCompare(pairs)
+	if err != nil {
+		return err
+	}
+	for _, j := range jobs {
+		differs, why := j.fail != "", j.fail
+		for _, r := range res[j.lo:j.hi] {
+			if !differs && r.Skip == "" && !r.Same {
+				differs, why = true, r.Why
 			}
-			st.Count(fmt.Sprintf("corpus %s rename=%v", src, rename), out != src)
-			if differs {
-				c.R.Add(h.Finding{Stage: "known+corpus", Kind: "fail", What: "regression corpus: behaviour differs under node: " + c01DiffClass(why), Input: src, Config: fmt.Sprintf("version=0 keepVarNames=%v", !rename), Impl: out, Model: why})
-			}
+		}
+		if j.known != nil {
+			st.Count("known "+j.known.ID+": "+j.src, true)
+			c.R.AddKnown(j.known.ID, differs, j.known.What, j.out+" | "+why)
+			continue
+		}
+		st.Count(fmt.Sprintf("corpus %s rename=%v", j.src, j.rename), j.out != j.src)
+		if differs {
+			c.R.Add(h.Finding{Stage: "known+corpus", Kind: "fail", What: "regression corpus: behaviour differs under node: " + c01DiffClass(why), Input: j.src, Config: fmt.Sprintf("version=0 keepVarNames=%v", !j.rename), Impl: j.out, Model: why})
 		}
 	}
 	st.End()
 	return nil
 }
+
+// spreading / enumerating `this` (the global object at top level): observes the creation order of global `var`s
+var c01ReEnumThis = regexp.MustCompile(`\.\.\.\s*\(*\s*this\b|\b(in|of)\s+\(*\s*this\b|\b(keys|entries|values|assign|getOwnPropertyNames)\(\s*\(*\s*this\b|\}\s*=\s*\(*\s*this\b`)
 
 func c01Sweep(c *Ctx) error {
 	// forms under open known findings are not generated (the findings are replayed by c01KnownAndCorpus)
@@ -1113,7 +1425,7 @@ func c01Sweep(c *Ctx) error {
 	var cases []*c01Case
 	rejected := 0
 	for _, src := range progs {
-		if strings.Contains(src, "...this") || strings.Contains(src, " in this") || strings.Contains(src, " of this") {
+		if c01ReEnumThis.MatchString(src) {
 			// enumerating the global object observes the creation order of global `var`s, which hoisting may change
 			continue
 		}
@@ -1217,6 +1529,6 @@ func init() {
 		if err := c01Sweep(c); err != nil {
 			return err
 		}
-		return nil
+		return c01RulesStage(c)
 	})
 }
